@@ -62,6 +62,7 @@ class SMHooks:
         self.exec_depth = 0
         self.world = None
         self.fn_depth = 0
+        self.post_done = False
 
     # -- API calls with caller context
     def on_enter(self, it, f, vals, node):
@@ -144,8 +145,15 @@ class SMHooks:
         return opts
 
     def play_script(self, it, machine, node):
-        for step in range(self.max_script):
+        # a script is at most max_script requests; after a done() one more request may follow ("give up, then ask
+        # for a state after all"), so that every machine is also explored under contradictory state functions
+        after_done = False
+        for step in range(self.max_script + 1):
+            if step >= self.max_script and not (after_done and self.post_done):
+                return
             opts = self.script_options()
+            if after_done:
+                opts = [o for o in opts if o[0] in ("none", "next_state_now")]
             a = opts[it.choose(len(opts), ("script", step))]
             if a[0] == "none":
                 return
@@ -156,8 +164,10 @@ class SMHooks:
                 it.call(it.getattr(machine, a[0]), list(a[1:]), {}, node)
             finally:
                 self.origin = saved
-            if a[0] == "done":
+            if after_done:
                 return
+            if a[0] == "done":
+                after_done = True
 
 
 # ----------------------------------------------------------------------------------------
@@ -184,7 +194,9 @@ def client_actions(specs, base):
             out = acts
             if not g["enabled_once"]:
                 out = [a for a in out if a[0] != "on_iteration"]
-            if g["armed"]:
+            if g["armed"] or g["contra"]:
+                # (after a state function that gave up and then asked for a state in the same call the selector's
+                #  on_disable() comes before the next on_enable(), as it does at the end of every autonomous period)
                 out = [a for a in out if a[0] != "on_enable"]
             return out
         return acts
@@ -226,7 +238,7 @@ def configure(it):
     it.tunable_cells = True
 
 
-GHOST0 = {"eng": False, "last": None, "interv": True, "fresh": None, "was_running": False, "cs_prev": None, "armed": False, "enabled_once": False}
+GHOST0 = {"eng": False, "last": None, "interv": True, "fresh": None, "was_running": False, "cs_prev": None, "armed": False, "enabled_once": False, "contra": False}
 
 
 class SMMonitor:
@@ -276,6 +288,7 @@ class SMMonitor:
                     g["eng"] = True
                 if api in ("done", "on_disable") and ctx == "client":
                     g["eng"] = False
+                    g["contra"] = False
                     if auto:
                         g["armed"] = False
                 if api == "on_enable" and ctx == "client" and auto:
@@ -312,6 +325,10 @@ class SMMonitor:
                             L["engine_done"] = True
                 if api == "next_state_now" and ctx == "statefn" and L["in_iter"]:
                     L["nows"] += 1
+                    if L.get("statefn_done"):
+                        L["contra"] = True
+                if api == "done" and ctx == "statefn" and L["in_iter"]:
+                    L["statefn_done"] = True
                 if api == iter_api and ctx == "client":
                     if auto and g["armed"]:
                         g["eng"] = True
@@ -345,6 +362,7 @@ class SMMonitor:
                     if L["runs"] == 0 and g["cs_prev"] is not None and not L["any_cmp_true"] and S != g["cs_prev"]:
                         err("C04.M5", f"current_state named '{g['cs_prev']}' after the previous iteration but '{S}' ran next", site)
                 L["runs"] += 1
+                L["statefn_done"] = False
                 g["last"] = S
                 g["interv"] = False
                 g["fresh"] = None
@@ -360,6 +378,14 @@ class SMMonitor:
         return g, V
 
     def end_iteration(self, g, L, obs, err, auto):
+        if L.get("contra") or g["contra"]:
+            # a state function called done() and then next_state_now() in the same call: what the getters and the
+            # run count should be is not specified; what is: the machine has finished (C13: "from then on ...
+            # is_executing stays False"), which the later iterations are held to by C13.M2 / C13.M3
+            if obs["is_executing"] is not False:
+                err("C13.M2", f"a state function called done() (and then next_state_now()), but is_executing={obs['is_executing']!r} after the iteration: the machine keeps running")
+            g.update(was_running=False, cs_prev=None, eng=False, armed=False, contra=True)
+            return
         if L["eng0"] and (not auto or L["armed_at_start"]):
             if L["runs"] != 1 + L["nows"] and not (auto and L["engine_done"] and L["runs"] == 0):
                 # (an autonomous machine whose last state expires finishes in that iteration without running anything)
